@@ -216,6 +216,11 @@ func sameList(a, b []string) bool {
 
 func propC14(c C14Case) error {
 	line := c.line()
+	// a related line first: parsing this one must not depend on it
+	_, _ = flags.Parse(line + "x")
+	if len(line) > 2 {
+		_, _ = flags.Parse(line[:len(line)-1])
+	}
 	r, err := flags.Parse(line)
 	if (r == nil) == (err == nil) {
 		return fmt.Errorf("%s: Parse returned (rule nil=%v, err=%v)", c.Describe(), r == nil, err)
